@@ -267,7 +267,7 @@ def match_interp(I: Interp, t) -> InterpNF | None:
     subj_guard = None
     if t[0] == "cond":
         c = t[1]
-        if c[0] == "cmp" and c[1] == "Is" and is_const(c[3], None) and t[2] == c[2]:
+        if c[0] == "cmp" and c[1] == "Is" and is_const(c[3], None) and (t[2] == c[2] or is_const(t[2], None)):
             subj_guard = c[2]
             t = t[3]
     if t[0] != "loopout":
